@@ -20,6 +20,20 @@ for d in sorted(glob.glob("/verif/seeded/C*")):
         res = {}
     own = res.get("own", {})
     others = res.get("others_alarmed", {})
+    # the own check may have been re-run later (after the machinery was strengthened) without
+    # re-running every other check: the most recent own result counts, and is recorded as such
+    latest = (os.path.getmtime(d + "/check-results.json") if os.path.exists(d + "/check-results.json") else 0, "check-results.json")
+    for extra in ["own-recheck.json", "own-first.json", "own-second.json", "own-third.json"]:
+        f = d + "/" + extra
+        if os.path.exists(f) and os.path.getmtime(f) > latest[0]:
+            try:
+                o = json.load(open(f)).get("own", {})
+                if o:
+                    own = o
+                    latest = (os.path.getmtime(f), extra)
+            except Exception:
+                pass
+    own_source = latest[1]
     prop = name.split("-")[0]
     meta = {
         "id": name,
@@ -36,6 +50,7 @@ for d in sorted(glob.glob("/verif/seeded/C*")):
         },
         "checks_run": {
             "how": "tools/seeded.py try patch.diff <property> all (MUT_LAB=/tmp/mutlab: the patch applied to a scratch worktree of /repo at the same commit, a copy of /verif/sim rebuilt against it; every check with its own fixed quick budget, i.e. what `./check <id> quick` runs; evidence and replay files to a scratch directory)",
+            "own_check_result_from": own_source,
             "own_check_exit": own.get("exit"),
             "own_check_clauses": [c[:400] for c in own.get("clauses", [])][:3],
             "other_checks_that_alarmed": {k: [c[:300] for c in v.get("clauses", [])][:1] for k, v in others.items()},
